@@ -266,6 +266,8 @@ fn c11_k4_finalize_flags() {
     let r = u.finalize(file_len);
     if let Ok((h, kept_primary, layout_matched)) = r {
         assert!(kept_primary);
+        // C01-K4 for this geometry: the layout is rebuilt from the file length, whatever the stored counts were
+        assert!(h.layout().len() == file_len);
         assert!(layout_matched == (h.full_regions == stored_full && h.trailing_partial_region_pages == stored_trailing));
         vk::cover!(layout_matched);
         vk::cover!(!layout_matched);
